@@ -97,17 +97,14 @@ func watchdog(what string, f func()) {
 	}
 }
 
-func domCheck(adj [][]int, root int) (nt bool, classes []string, err error) {
+// refIDom is the definitional reference: reachability r from root, dom[d][v] (d dominates v,
+// decided by deleting d and re-running reachability) and the closest strict dominator of every
+// reachable node other than the root (-1 elsewhere).
+func refIDom(adj [][]int, root int) (want []int, r []bool, dom [][]bool) {
 	n := len(adj)
-	g := newCounting(adj)
-	var idom []int
-	watchdog("IDom", func() { idom = graphalg.IDom(g, root) })
-	if len(idom) != n {
-		return false, nil, fmt.Errorf("IDom returned %d entries for %d nodes", len(idom), n)
-	}
-	r := reachSkip(adj, root, -1)
+	r = reachSkip(adj, root, -1)
 	// dom[d][v]: d dominates v (both reachable): d == v or v is unreachable once d is deleted
-	dom := make([][]bool, n)
+	dom = make([][]bool, n)
 	for d := 0; d < n; d++ {
 		dom[d] = make([]bool, n)
 		if !r[d] {
@@ -118,7 +115,7 @@ func domCheck(adj [][]int, root int) (nt bool, classes []string, err error) {
 			dom[d][v] = r[v] && (d == v || !rd[v])
 		}
 	}
-	want := make([]int, n)
+	want = make([]int, n)
 	for v := 0; v < n; v++ {
 		want[v] = -1
 		if !r[v] || v == root {
@@ -140,6 +137,18 @@ func domCheck(adj [][]int, root int) (nt bool, classes []string, err error) {
 			}
 		}
 	}
+	return
+}
+
+func domCheck(adj [][]int, root int) (nt bool, classes []string, err error) {
+	n := len(adj)
+	g := newCounting(adj)
+	var idom []int
+	watchdog("IDom", func() { idom = graphalg.IDom(g, root) })
+	if len(idom) != n {
+		return false, nil, fmt.Errorf("IDom returned %d entries for %d nodes", len(idom), n)
+	}
+	want, r, dom := refIDom(adj, root)
 	for v := 0; v < n; v++ {
 		if idom[v] != want[v] {
 			return false, nil, fmt.Errorf("IDom[%d] = %d, the closest strict dominator is %d (root %d, reachable %v)", v, idom[v], want[v], root, r[v])
@@ -270,6 +279,34 @@ func domCheck(adj [][]int, root int) (nt bool, classes []string, err error) {
 	}
 	if parallel {
 		classes = append(classes, "parallel-edges")
+	}
+	// The same graph value is then asked about other roots (what was unreachable becomes the
+	// flow graph): the answers must be those of the definition again, whatever the earlier
+	// calls did with the graph.
+	var others []int
+	if n <= 4 {
+		for r2 := 0; r2 < n; r2++ {
+			if r2 != root {
+				others = append(others, r2)
+			}
+		}
+	} else {
+		others = []int{(root + 1) % n, n - 1, (root + n/2) % n}
+	}
+	for _, r2 := range others {
+		if r2 == root {
+			continue
+		}
+		var idom2 []int
+		g.calls = 0
+		watchdog("IDom", func() { idom2 = graphalg.IDom(g, r2) })
+		want2, _, _ := refIDom(adj, r2)
+		if fmt.Sprint(idom2) != fmt.Sprint(want2) {
+			return false, nil, fmt.Errorf("after the calls for root %d, IDom of the same graph for root %d = %v, the definition gives %v", root, r2, idom2, want2)
+		}
+		g.calls = 0
+		watchdog("DomFrontier", func() { graphalg.DomFrontier(g, r2, nil) })
+		classes = append(classes, "same-graph-other-root")
 	}
 	return join, classes, nil
 }
